@@ -300,3 +300,34 @@ def link_lean(ctx):
         o.time_s = (time.time() - t0) / len(LEAN_LEMMAS)
         out.append(o)
     return out
+
+
+# --------------------------------------------------------------------------------------------------------------
+# thorough tier: narrowing assumptions
+
+def link_thorough_binning(ctx):
+    """(a) the assumed contract of bisect_right proved for CPython's Lib/bisect.py with a loop invariant;
+    (b) the rounding facts hidden by A-real attempted in z3's FloatingPoint theory (Float64, RNE)."""
+    if ctx.tier != "thorough":
+        return []
+    out = []
+    try:
+        from contracts import stdlib_bisect
+        out += stdlib_bisect.obligations(ctx.reg, ctx.tier)
+    except Exception as e:   # noqa
+        out.append(Obl("bisect.bisect_right/proof-runs", "bisect:bisect_right", "safety", "Lib/bisect.py proof generated", status=ERROR, backend="pyvc", detail=repr(e)[-500:], props=("C03", "C16", "C10")))
+    import z3
+    from vcore.obl import smt_decider
+    F = z3.Float64()
+    rm = z3.RNE()
+    a, w = z3.FP("a", F), z3.FP("w", F)
+    zero = z3.FPVal(0.0, F)
+    fin = lambda x: z3.And(z3.Not(z3.fpIsNaN(x)), z3.Not(z3.fpIsInf(x)))   # noqa: E731
+    out.append(Obl("fp:accumulate/adding-a-nonnegative-weight-never-decreases-the-total", "lemma:float64", "lemma",
+                   "binary64, round-to-nearest: a >= 0, w >= 0 finite  ==>  a (+) w >= a   (cumulative weights stay adjacent-sorted under rounding)",
+                   decide=smt_decider([fin(a), fin(w), z3.fpGEQ(w, zero), z3.fpGEQ(a, zero), fin(z3.fpAdd(rm, a, w))], z3.fpGEQ(z3.fpAdd(rm, a, w), a), ctx.tier, second_solver=False),
+                   props=("C03", "C16", "C10")))
+    out.append(Obl("fp:accumulate/adding-zero-is-exact", "lemma:float64", "lemma", "binary64: a >= 0 finite ==> a (+) 0 == a   (a zero-weight group has an EMPTY interval also in float arithmetic)",
+                   decide=smt_decider([fin(a), z3.fpGEQ(a, zero)], z3.fpEQ(z3.fpAdd(rm, a, zero), a), ctx.tier, second_solver=False), props=("C03", "C16")))
+    ctx.notes.append("A-real: the third rounding fact (0 <= u <= 1-2^-32, t normal ==> 0 <= u (*) t < t) was attempted in z3's FloatingPoint theory and stays an assumption (unknown after 300 s)")
+    return out
